@@ -8,6 +8,7 @@ package main
 import (
 	"fmt"
 	"os"
+	"sort"
 	"runtime/pprof"
 	"strings"
 	"syscall"
@@ -40,6 +41,7 @@ type world struct {
 	note []string // scenario observations
 	fail string   // scenario-specific verdict: "clause: text"
 
+	prof      refterm.Profile
 	released  bool // the held terminal replies have been delivered
 	atTimeout struct{ seen, released, handled bool }
 }
@@ -346,6 +348,16 @@ var scenarios = []scenario{
 	}},
 }
 
+func diffTables(a, b map[string]string) map[string]string {
+	d := map[string]string{}
+	for k, v := range a {
+		if b[k] != v {
+			d[k] = fmt.Sprintf("%s -> %s", v, b[k])
+		}
+	}
+	return d
+}
+
 func indexOf(l []string, s string) int {
 	for i, x := range l {
 		if x == s {
@@ -366,7 +378,7 @@ func execute(sc *scenario, prefix []int) (*vsched.Result, *world) {
 	prof := refterm.DefaultProfile(caps, refterm.VersionOther)
 	prof.ClipboardReply = "aGVsbG8="
 	t := refterm.New(20, 6, prof)
-	w := &world{t: t, con: schedcon.New(t)}
+	w := &world{t: t, con: schedcon.New(t), prof: prof}
 	res := vsched.Run(prefix, 6000, func(s *vsched.Sched) {
 		s.Closed = true
 		s.Races = true
@@ -430,6 +442,17 @@ func check(sc *scenario, res *vsched.Result, w *world) (sig, what string) {
 		return "C10|goroutine-outlives-close|" + sc.name + "|" + blockedKinds(strings.Join(res.Blocked, "; ")), "still blocked after Close returned: " + strings.Join(res.Blocked, "; ")
 	case w.con.Closes != 1:
 		return "C10|console-close|" + sc.name, fmt.Sprintf("console closed %d times", w.con.Closes)
+	case w.con.Resets < w.con.SetRaws:
+		return "C10|still-raw|" + sc.name, fmt.Sprintf("console made raw %d times, reset %d times", w.con.SetRaws, w.con.Resets)
+	}
+	// whatever the interleaving, Close leaves the terminal as it was before New
+	if d := diffTables(refterm.New(w.t.Cols, w.t.Rows, w.prof).ModeTable(), w.t.ModeTable()); len(d) > 0 {
+		var keys []string
+		for k := range d {
+			keys = append(keys, k)
+		}
+		sort.Strings(keys)
+		return "C10|not-restored|" + sc.name + "|" + strings.Join(keys, ","), fmt.Sprintf("terminal state after Close differs from the state before New: %v", d)
 	}
 	return "", ""
 }
